@@ -1,10 +1,10 @@
 (* Run/C18.v — Sx codec around Model/Scheduler.v for the correspondence check.
    case   = ( msg ... )
-   msg    = (hb S NONCE CPUS) | (begin (S ...)) | (end_ok JOB STATE) | (end_fail JOB)
+   msg    = (hb S NONCE CPUS [TOKFAIL]) | (begin (S ...)) | (end_ok JOB STATE) | (end_fail JOB)
           | (upd JOB S STATE) | (status)                 STATE = pending | ready | started | complete
    result = ( obs ... )   one observation per message
    obs    = ( res pois_jobs pois_servers job_count ((job server state) ...)
-              ((server nonce cpus last_error_rank (assigned ...) (unclaimed ...)) ...) ((job server) ...) )
+              ((server nonce cpus tokfail last_error_rank (assigned ...) (unclaimed ...)) ...) ((job server) ...) )
    legs: "sched" = the code with the fix: commit (fx = true); "sched_legacy" = the code as it was. *)
 From Coq Require Import List NArith Bool.
 From Coq Require String.
@@ -36,9 +36,11 @@ Definition dec_msg (x : sx) : option msg :=
   | SL [t; a; b] =>
       if is_sym "end_ok" t then option_map (MAllocEndOk (get_N a)) (dec_state b) else None
   | SL [t; a; b; c] =>
-      if is_sym "hb" t then Some (MHeartbeat (get_N a) (get_N b) (get_N c))
+      if is_sym "hb" t then Some (MHeartbeat (get_N a) (get_N b) (get_N c) false)
       else if is_sym "upd" t then option_map (MUpdate (get_N a) (get_N b)) (dec_state c)
       else None
+  | SL [t; a; b; c; d] =>
+      if is_sym "hb" t then Some (MHeartbeat (get_N a) (get_N b) (get_N c) (get_bool d)) else None
   | _ => None
   end.
 
@@ -66,6 +68,7 @@ Definition enc_out (o : out) : sx :=
                        | EJobNotKnown => sym "job_not_known"
                        | EServerNotKnown => sym "server_not_known"
                        end]
+  | OAllocTokErr => SL [sym "alloc_err"; sym "token"]
   | OUpd r => SL [sym "upd";
                   match r with
                   | UOk => sym "ok" | UNotOwner => sym "not_owner" | UInvalid => sym "invalid"
@@ -89,7 +92,7 @@ Definition enc_obs (x : out * st) : sx :=
   let '(o, s) := x in
   SL [ enc_out o; sbool (pois_jobs s); sbool (pois_servers s); SN (job_count s);
        SL (map (fun e => SL [SN (fst e); SN (fst (snd e)); enc_state (snd (snd e))]) (jobs s));
-       SL (map (fun e => SL [SN (fst e); SN (sv_nonce (snd e)); SN (sv_cpus (snd e));
+       SL (map (fun e => SL [SN (fst e); SN (sv_nonce (snd e)); SN (sv_cpus (snd e)); sbool (sv_tokfail (snd e));
                              SN (err_rank (servers s) (sv_last_error (snd e)));
                              SL (map SN (sv_assigned (snd e))); SL (map SN (sv_unclaimed (snd e)))])
                (servers s));
